@@ -201,6 +201,32 @@ func TieProfile(r *rand.Rand) *profile.Profile {
 			p.Sample = append(p.Sample, neg)
 		}
 	}
+	// twins: a second location at the same address of the same binary with other line
+	// information (the same code symbolized against another source revision), used by some samples
+	if r.Intn(2) == 0 && len(p.Location) > 0 {
+		var maxID uint64
+		for _, l := range p.Location {
+			if l.ID > maxID {
+				maxID = l.ID
+			}
+		}
+		for k, n := 0, 1+r.Intn(2); k < n && maxID < 1<<62; k++ {
+			l := p.Location[r.Intn(len(p.Location))]
+			maxID++
+			tw := &profile.Location{ID: maxID, Mapping: l.Mapping, Address: l.Address, IsFolded: l.IsFolded}
+			for _, ln := range l.Line {
+				tw.Line = append(tw.Line, profile.Line{Function: ln.Function, Line: ln.Line + int64(1+r.Intn(3)), Column: ln.Column})
+			}
+			p.Location = append(p.Location, tw)
+			for _, s := range p.Sample {
+				for i, sl := range s.Location {
+					if sl == l && r.Intn(2) == 0 {
+						s.Location[i] = tw
+					}
+				}
+			}
+		}
+	}
 	return p
 }
 
@@ -234,6 +260,7 @@ func formats(r *rand.Rand) []spec {
 	return []spec{
 		base("top"), base("top", "nodecount="+nc), base("tree"), base("tree", "nodecount="+nc), base("peek", "peek=."), base("dot"), base("dot", "nodecount="+nc), base("dot", "call_tree"), base("dot", "call_tree", "nodecount=1"), base("dot", "call_tree", "nodecount=2"), base("dot", "call_tree", "nodecount=3"), base("dot", "call_tree", "nodecount=4"), base("dot", "call_tree", "nodecount=6"),
 		base("callgrind"), base("callgrind", "call_tree"), base("tags"), base("traces"), base("raw"), base("proto"), base("topproto"), base("text", "tagroot=k", "tagleaf=j"),
+		base("disasm", "disasm=."), base("proto", "show_from=g"), base("raw", "show_from=f|h"), base("proto", "focus=f", "hide=g"), base("raw", "prune_from=g"), base("proto", "tagfocus=a", "taghide=j"),
 	}
 }
 
@@ -248,7 +275,7 @@ func render(p *profile.Profile, s spec) ([]byte, string) {
 		}
 		strs[k] = v
 	}
-	out, _, res := drv.Report(map[string]*profile.Profile{"p": p}, []string{"p"}, s.bools, strs, ints, nil, nil)
+	out, _, res := drv.ReportObj(&drv.FakeObj{Prof: p}, map[string]*profile.Profile{"p": p}, []string{"p"}, s.bools, strs, ints)
 	if res.Panic != "" {
 		return nil, "panic: " + res.Panic
 	}
@@ -457,7 +484,7 @@ func init() {
 	harness.Register(&harness.Check{
 		ID:          "C08",
 		Level:       "exploration",
-		Rule:        "part orderlaws: tie-rich element sets of 3..6 distinct elements (values in {0,+-1,+-2,+-5}, equal names at different addresses/files/binaries) - EVERY permutation (6..720) is sorted by SortTags (flat, cum) and Nodes.Sort (7 orders incl. entropy with random edges); EdgeMap.Sort is repeated 60x (its input order is a map); the result sequence must be unique (sort.Sort is an insertion sort at these sizes, so any pair the comparator leaves unordered yields two results). part e2e: tie-class profiles (values -2..2, +/- cancelling diff shapes, equal names in several files, duplicate label values) x 21 format/option combinations (top, tree, peek, dot, dot+call_tree, callgrind(+call_tree), tags, traces, raw, proto (gunzipped), topproto, tagroot/tagleaf; with and without nodecount) rendered 8x in one process (fresh map seeds each time) plus web /top /flamegraph /peek /source on two servers; all byte strings equal. part xproc: the same renderings in 3 fresh processes. part fetchorder: 2-6 sources differing in main binary and comments fetched through the gated fetcher under 4 forced completion orders x 6 formats; bytes must be equal. non-trivial = every case; distinct = element set / profile shape",
+		Rule:        "part orderlaws: tie-rich element sets of 3..6 distinct elements (values in {0,+-1,+-2,+-5}, equal names at different addresses/files/binaries) - EVERY permutation (6..720) is sorted by SortTags (flat, cum) and Nodes.Sort (7 orders incl. entropy with random edges); EdgeMap.Sort is repeated 60x (its input order is a map); the result sequence must be unique (sort.Sort is an insertion sort at these sizes, so any pair the comparator leaves unordered yields two results). part e2e: tie-class profiles (values -2..2, +/- cancelling diff shapes, equal names in several files, duplicate label values, twin locations at one address with different line information) x 27 format/option combinations (top, tree, peek, dot, dot+call_tree, callgrind(+call_tree), tags, traces, raw, proto (gunzipped), topproto, tagroot/tagleaf; with and without nodecount; disasm through a fake object tool whose instructions carry no line information; proto/raw under show_from, focus+hide, prune_from, tagfocus+taghide) rendered 8x in one process (fresh map seeds each time) plus web /top /flamegraph /peek /source on two servers; all byte strings equal. part xproc: the same renderings in 3 fresh processes. part fetchorder: 2-6 sources differing in main binary and comments fetched through the gated fetcher under 4 forced completion orders x 6 formats; bytes must be equal. non-trivial = every case; distinct = element set / profile shape",
 		Assumptions: []string{"elements of one sort call have distinct identities (names of tags within a node, NodeInfo of nodes in a graph), as in pprof's own data structures", "schedule coverage = map-iteration seeds of repeated runs and fresh processes, plus forced fetch completion orders (more of them in C16)"},
 		Parts: []harness.Part{
 			{Name: "orderlaws", Quick: 3000, Thor: 100000, Run: runOrderLaws},
